@@ -848,6 +848,28 @@ def exec_mime(prop, plan, ctx):
         cov['distinct_nontrivial'] += len(set(res['req']))
         cov['distribution'][feat] = res['stats']
         samples += sample_reqs(res, 4)
+        if feat == 'mime03':
+            # the generated module is compiled against the cached mime crate and `mime` is read back
+            ctx.setdefault('binary_paths', {})['mime03'] = binary
+            r2 = dict(suite='script', mix='statics', n=dict(quick=30, thorough=300), projection='script+files', tags=['C19'], args=['--keep'])
+            res2 = ctx['run_suite'](binary, ctx['driver'], r2, ctx['tier'], ctx['seed'], f"{ctx['work']}/mime-e2e")
+            if 'error' in res2:
+                return dict(error=res2['error'])
+            d2 = compare(res2, 'script+files')
+            for x in d2:
+                x['suite'] = 'script:mime03'
+            disagreements += d2
+            ef, njobs = statics_e2e(res2, ctx, ['C19'], feat='mime03', limit=dict(quick=16, thorough=120)[ctx['tier']])
+            oracle += ef
+            res2['stats']['statics.e2e_modules_compiled'] = njobs
+            cov['distribution']['script:mime03'] = res2['stats']
+            cov['evaluations'] += len(res2['req'])
+            import shutil as _sh
+            for l in open(res2['wdir'] + '/scenarios.jsonl') if os.path.exists(res2['wdir'] + '/scenarios.jsonl') else []:
+                try:
+                    _sh.rmtree(json.loads(l)['root'], ignore_errors=True)
+                except Exception:
+                    pass
     return dict(disagreements=disagreements, oracle=oracle, coverage=cov, samples=samples)
 
 
